@@ -869,8 +869,21 @@ class UpdateableGroup(updateable_base):
             )
             return False
 
-        # Early checks passed: dispatch this request to the Group I/O layer
-        if copy_state == "X":
+        # Early checks passed: dispatch this request to the Group I/O layer.
+        #
+        # A corrupt copy is overwritten without looking for an existing file
+        # first, but only if the copy known to be corrupt is on one of the
+        # nodes we're pulling to.  A corrupt copy on some other node of the
+        # group tells us nothing about files on our nodes.
+        if copy_state == "X" and (
+            ArchiveFileCopy.select()
+            .where(
+                ArchiveFileCopy.file == req.file,
+                ArchiveFileCopy.node << [node.db for node in self._nodes],
+                ArchiveFileCopy.has_file == "X",
+            )
+            .exists()
+        ):
             self.io.pull_force(req)
         else:
             self.io.pull(req)
